@@ -512,6 +512,39 @@ impl C18 {
                 }
             }
         }
+        // a save that fails (its directory does not exist) followed by a save that succeeds: the second file holds the
+        // second library and nothing else
+        for (fname, fmt) in FMTS {
+            cx.stats.executions += 1;
+            cx.stats.evaluations += 1;
+            let bad = format!("{}/no-such-directory/c18.{fname}", cx.scratch);
+            let good = cx.scratch_file(&format!("c18-after-failure.{fname}"));
+            let _ = std::fs::remove_file(&good);
+            let (a, b) = (&variants[0].1, &variants[0].2);
+            let r = guard(|| -> Result<(bool, GdsLibrary, LefLibrary), String> {
+                let failed = SerdeFile::save(a, &bad, fmt).is_err() && fmt.save(&llong, &bad).is_err();
+                SerdeFile::save(b, &good, fmt).map_err(|e| format!("save: {e}"))?;
+                let gb = <GdsLibrary as SerdeFile>::open(&good, fmt).map_err(|e| format!("open: {e}"))?;
+                fmt.save(&lbase, &good).map_err(|e| format!("save: {e}"))?;
+                let lb2 = fmt.open::<LefLibrary>(&good).map_err(|e| format!("open: {e}"))?;
+                Ok((failed, gb, lb2))
+            });
+            let _ = std::fs::remove_file(&good);
+            let key = format!("q:after-failure:{fname}");
+            match r {
+                Err(p) => cx.fail(&key, "save-sequence-panic", None, || p.short(), || Value::Null),
+                Ok(Err(e)) => cx.fail(&key, "save-after-a-failed-save", None, || format!("{fname}: after a save that failed, save + open of another library: {e}"), || Value::Null),
+                Ok(Ok((failed, gb, lb2))) => {
+                    if !failed {
+                        cx.machinery(format!("C18: saving into a directory that does not exist succeeded ({bad})"));
+                    } else if gb != *b || lb2 != lbase {
+                        cx.fail(&key, "save-after-a-failed-save", None, || format!("{fname}: after a save that failed, the next save + open returns another library"), || Value::Null);
+                    } else {
+                        cx.outcome("identical");
+                    }
+                }
+            }
+        }
         // file names: the format is the one asked for, whatever the name of the file looks like
         const FILE_NAMES: [&str; 10] = ["n.json", "n.yaml", "n.yml", "n.toml", "n.JSON", "n.txt", "n", "n.json.yaml", "n.gds", "n.lef"];
         let gbase = full_gds();
@@ -593,7 +626,7 @@ impl Driver for C18 {
     fn describe(&self, tier: Tier) -> Describe {
         Describe {
             rule: format!(
-                "[doubles] every binary exponent of the GDSII range (-256..=251) x sign x {} fraction patterns at each of {GDS_F64_SITES} f64 sites (UNITS x2, SREF MAG/ANGLE, AREF ANGLE, TEXT MAG) of a GDSII library holding one element of every kind with every optional field; [strings] every string of length <= {} over a 27-character alphabet special to JSON/YAML (quotes, colon, hash, backslash, space, newline, tab, CR, dash, ?, brackets, &, *, !, |, >, %, @, backtick, ~, comma, e-acute, digit, letter, NUL) plus {} whole strings (YAML keywords, numbers, document markers, flow/block indicators, leading/trailing/inner whitespace lines, BOM, NEL, U+2028, NUL, DEL, emoji, combining) at each of {GDS_STRING_SITES} GDSII and {LEF_STRING_SITES} LEF string sites; [decimals] at each of {LEF_DECIMAL_SITES} LEF decimal sites (VERSION, SIZE x / y, ORIGIN, layer WIDTH, RECT and POLYGON coordinates, MANUFACTURINGGRID) every decimal with one of 14 mantissas of 1..29 digits (0, 1, 5, 12345, 2^52+1, 2^53+1, 17/18/20/21 digits, 23 nines, 28 digits, 2^95, 2^96-1) x scale in {{0,1,3,6,12,17,20,28}} x sign; [integers] every integer leaf of the full GDSII library's serde form (coordinates, layers, types, dates, flags, plex, attributes, columns / rows) := each of 16 values (0, +-1, 255, 256, i16 / u16 / i32 limits, 2^24, 2^24+-1, 123456789, 2^30) that fits the field; [save sequences] save(A) then save(B) to the same path then open, for pairs A, B whose markup has the same length / B shorter / B longer (GDSII and LEF, both formats): the copy must be B; save + open through files named n.json / .yaml / .yml / .toml / .JSON / .txt / no extension / .json.yaml / .gds / .lef under either format; [structure] full GDSII / LEF libraries, repository .gds and .lef resources; [markup] repository .gds resources and the full library through to_markup + from_markup on files. All x {{Json, Yaml}} x {{to_string+from_str, save+open}}. A state is (value, site); non-trivial = not the default value. Oracle: value equality, f64 sites by bits, strings by bytes, GDSII bytes identical.",
+                "[doubles] every binary exponent of the GDSII range (-256..=251) x sign x {} fraction patterns at each of {GDS_F64_SITES} f64 sites (UNITS x2, SREF MAG/ANGLE, AREF ANGLE, TEXT MAG) of a GDSII library holding one element of every kind with every optional field; [strings] every string of length <= {} over a 27-character alphabet special to JSON/YAML (quotes, colon, hash, backslash, space, newline, tab, CR, dash, ?, brackets, &, *, !, |, >, %, @, backtick, ~, comma, e-acute, digit, letter, NUL) plus {} whole strings (YAML keywords, numbers, document markers, flow/block indicators, leading/trailing/inner whitespace lines, BOM, NEL, U+2028, NUL, DEL, emoji, combining) at each of {GDS_STRING_SITES} GDSII and {LEF_STRING_SITES} LEF string sites; [decimals] at each of {LEF_DECIMAL_SITES} LEF decimal sites (VERSION, SIZE x / y, ORIGIN, layer WIDTH, RECT and POLYGON coordinates, MANUFACTURINGGRID) every decimal with one of 14 mantissas of 1..29 digits (0, 1, 5, 12345, 2^52+1, 2^53+1, 17/18/20/21 digits, 23 nines, 28 digits, 2^95, 2^96-1) x scale in {{0,1,3,6,12,17,20,28}} x sign; [integers] every integer leaf of the full GDSII library's serde form (coordinates, layers, types, dates, flags, plex, attributes, columns / rows) := each of 16 values (0, +-1, 255, 256, i16 / u16 / i32 limits, 2^24, 2^24+-1, 123456789, 2^30) that fits the field; [save sequences] save(A) then save(B) to the same path then open, for pairs A, B whose markup has the same length / B shorter / B longer (GDSII and LEF, both formats): the copy must be B; a failing save (no such directory) followed by save + open of another library; save + open through files named n.json / .yaml / .yml / .toml / .JSON / .txt / no extension / .json.yaml / .gds / .lef under either format; [structure] full GDSII / LEF libraries, libraries whose struct / macro / pin names differ only in letter case, repository .gds and .lef resources; [markup] repository .gds resources and the full library through to_markup + from_markup on files. All x {{Json, Yaml}} x {{to_string+from_str, save+open}}. A state is (value, site); non-trivial = not the default value. Oracle: value equality, f64 sites by bits, strings by bytes, GDSII bytes identical.",
                 Self::doubles_for(tier, 0).len() / 2,
                 tier.pick(2, 3),
                 whole_strings().len()
@@ -742,6 +775,32 @@ impl Driver for C18 {
                 cx.stats.executions += 1;
                 self.check_lef(&fm, "l:fixedmask-macro", "LEF macro with FIXEDMASK", cx);
                 n += 2;
+                // names that differ only in letter case (GDSII structs, LEF macros / pins): different objects
+                {
+                    let mut g = full_gds();
+                    let mut twin = g.structs[0].clone();
+                    g.structs[0].name = "inv_x1".into();
+                    twin.name = "INV_X1".into();
+                    g.structs.push(twin);
+                    let mut third = g.structs[0].clone();
+                    third.name = "zelle_\u{e4}".into();
+                    g.structs.push(third);
+                    let mut fourth = g.structs[0].clone();
+                    fourth.name = "zelle_\u{c4}".into();
+                    g.structs.push(fourth);
+                    cx.stats.executions += 1;
+                    self.check_gds(&g, "g:case-twins", "GDSII library whose struct names differ only in letter case", |_, _| None, cx);
+                    let mut l = full_lef();
+                    let mut m2 = l.macros[0].clone();
+                    m2.name = l.macros[0].name.to_lowercase();
+                    let mut p2 = m2.pins[0].clone();
+                    p2.name = p2.name.to_lowercase();
+                    m2.pins.push(p2);
+                    l.macros.push(m2);
+                    cx.stats.executions += 1;
+                    self.check_lef(&l, "l:case-twins", "LEF library whose macro / pin names differ only in letter case", cx);
+                    n += 2;
+                }
                 // repository resources
                 for f in resource_files("gds") {
                     if let Ok(Ok(lib)) = guard(|| GdsLibrary::load(&f)) {
